@@ -70,6 +70,32 @@ static double check_phase(const Ctx &c, const char *what, const std::vector<U> &
     return mx;
 }
 
+// noise level of products with noisy rows, measured: 1-message, uniformly random TLWE samples, fresh rows each time; the mean square
+// of the phase error over all coefficients against the analytic variance (k+1) l N (Bg/2)^2 alpha^2 (centred digits give about a
+// third of it; the check, offline, is "not above the bound" with 8 standard errors)
+static void product_noise_level(Ctx &c, int products, double alpha) {
+    if (alpha <= 0) return;
+    TGswSample *A = new_TGswSample(c.tg); TGswSampleFFT *AF = new_TGswSampleFFT(c.tg);
+    TLweSample *cin = new_TLweSample(c.tl), *r = new_TLweSample(c.tl);
+    IntPolynomial *m = new_IntPolynomial(N); for (int j = 0; j < N; j++) m->coefs[j] = 0; m->coefs[0] = 1;
+    std::vector<U> phc, ph; double ss[2] = {0, 0}; uint64_t cnt = 0;
+    for (int q = 0; q < products; q++) {
+        VH_OP("product-noise-level:%s", c.cfg.c_str());
+        tGswSymEncrypt(A, m, alpha, c.key); tGswToFFTConvert(AF, A, c.tg);
+        fill_tlwe(c, cin, 0);
+        ref_tlwe_phase(phc, cin, c.key->key, N, c.k);
+        tGswExternProduct(r, A, cin, c.tg); ref_tlwe_phase(ph, r, c.key->key, N, c.k);
+        for (int j = 0; j < N; j++) { double e = (double) (int32_t) (ph[j] - phc[j]); ss[0] += e * e; }
+        tLweCopy(r, cin, c.tl); tGswFFTExternMulToTLwe(r, AF, c.tg); ref_tlwe_phase(ph, r, c.key->key, N, c.k);
+        for (int j = 0; j < N; j++) { double e = (double) (int32_t) (ph[j] - phc[j]); ss[1] += e * e; }
+        cnt += N; out.evaluations += 2;
+    }
+    double s2 = pow(c.noisy_sigma_units(alpha), 2);
+    out.stat(J().s("kind", "extprod-noise").s("config", c.cfg).u("coefficients", cnt).i("products", products).d("mean_square_over_bound_coef_domain", ss[0] / cnt / s2).d("mean_square_over_bound_fft_domain", ss[1] / cnt / s2).d("alpha", alpha));
+    out.cell(c.cfg + ":product-noise-level", products);
+    delete_IntPolynomial(m); delete_TLweSample(r); delete_TLweSample(cin); delete_TGswSampleFFT(AF); delete_TGswSample(A);
+}
+
 static void extern_products(Ctx &c, int reps, double alpha) {
     TGswSample *A = new_TGswSample(c.tg);
     TGswSampleFFT *AF = new_TGswSampleFFT(c.tg);
@@ -307,6 +333,7 @@ int main(int argc, char **argv) {
     tGswKeyGen(c.key);
     { char b[64]; snprintf(b, sizeof b, "k%d.l%d.Bg%d", c.k, c.l, c.Bgbit); c.cfg = b; }
     extern_products(c, args.i("reps", 30), alpha);
+    product_noise_level(c, args.i("nreps", 24), alpha);
     helpers(c, args.i("hreps", 8));
     std::stringstream ns(args.s("n", "1,4,16")); std::string t;
     while (std::getline(ns, t, ',')) blind_rotations(c, atoi(t.c_str()), args.i("rreps", 15), alpha);
